@@ -46,6 +46,8 @@ LEVELS = {
     "pi_no_avx2": ("prefer_intrinsics", "no_avx2", "no_avx512"),
     "pure_no_avx2": ("pure", "no_avx2"),
     "pure_no_sse41": ("pure", "no_avx2", "no_sse41"),
+    # the release profile as users build it: no debug assertions, no overflow checks (pseudo-feature, see Builds._build)
+    "nodebug": ("@nodebug",),
 }
 DRIVER_FEATURE = {"traits-preview": "traits", "zeroize": "zeroize"}      # blake3 feature -> driver feature
 
@@ -72,10 +74,15 @@ class Builds:
         common.write(os.path.join(drv, "Cargo.toml"), tpl.replace("@BLAKE3_PATH@", os.path.abspath(common.REPO)))
         shutil.copy(os.path.join(DRIVER_SRC, "src", "main.rs"), os.path.join(drv, "src", "main.rs"))
         cmd = ["cargo", "build", "--offline", "--release", "--quiet"]
-        dfe = [DRIVER_FEATURE.get(f, f) for f in feats]
+        dfe = [DRIVER_FEATURE.get(f, f) for f in feats if not f.startswith("@")]
         if dfe:
             cmd += ["--features", ",".join(dfe)]
         env = {"CARGO_TARGET_DIR": os.path.join(d, "target"), "RUSTFLAGS": "-Awarnings"}
+        if "@nodebug" in feats:
+            # the driver's profile keeps debug assertions and overflow checks on; this flavour turns both off for the
+            # crate under test and the driver alike (behaviour that exists only in builds without them)
+            env["CARGO_PROFILE_RELEASE_DEBUG_ASSERTIONS"] = "false"
+            env["CARGO_PROFILE_RELEASE_OVERFLOW_CHECKS"] = "false"
         rc, out, err, secs = common.run(cmd, timeout=BUILD_TIMEOUT_S, mem_gb=24, cwd=drv, env=env)
         binp = os.path.join(d, "target", "release", "replay_driver")
         ok = rc == 0 and os.path.exists(binp)
@@ -1330,8 +1337,8 @@ FAMILIES = {
 # ==============================================================================================
 # part 4: obligation -> families, find(), rerun()
 # ==============================================================================================
-GENERAL = ["default", "portable"]
-SIMD_ALL = ["default", "portable", "pure", "no_avx512", "no_avx2", "no_sse41", "prefer_intrinsics"]
+GENERAL = ["default", "nodebug", "portable"]
+SIMD_ALL = ["default", "nodebug", "portable", "pure", "no_avx512", "no_avx2", "no_sse41", "prefer_intrinsics"]
 
 # (regex on the obligation's function path, families in order, SIMD variants in order, platforms for
 #  the `platform` family).  First match wins.
@@ -1345,10 +1352,10 @@ TABLE = [
     (r"^crate::Hash::(Deserialize|Serialize)|serde", ["serde", "hex"], ["default"], ()),
     (r"^crate::Hash::|^crate::HexError|^crate::HexErrorInner", ["hex", "serde"], ["default"], ()),
     (r"^crate::guts::", ["guts", "oneshot"], GENERAL, ()),
-    (r"[Zz]eroize", ["zeroize"], ["default"], ()),
-    (r"Debug__fmt|::fmt$|Debug", ["debug"], ["default"], ()),
-    (r"^crate::traits::", ["traits", "reset", "xof"], ["default"], ()),
-    (r"^crate::io::|Hasher::update_reader", ["reader", "rayon_mmap", "incremental"], ["default"], ()),
+    (r"[Zz]eroize", ["zeroize"], ["default", "nodebug"], ()),
+    (r"Debug__fmt|::fmt$|Debug", ["debug"], ["default", "nodebug"], ()),
+    (r"^crate::traits::", ["traits", "reset", "xof"], ["default", "nodebug"], ()),
+    (r"^crate::io::|Hasher::update_reader", ["reader", "rayon_mmap", "incremental"], ["default", "nodebug"], ()),
     (r"^crate::join::|Hasher::update_rayon|Hasher::update_mmap", ["rayon_mmap", "incremental"], SIMD_ALL, ()),
     (r"^crate::hazmat::(left_subtree_len|max_subtree_len)", ["hazmat_fn", "hazmat_tree", "oneshot"], GENERAL, ()),
     (r"^crate::hazmat::", ["hazmat_ops", "hazmat_tree", "hazmat_fn", "reset"], GENERAL, ()),
